@@ -93,15 +93,19 @@ class Harness:
         self._reg(name, v)
         return v
 
-    def bytes(self, name, n, mutable=False):
+    def bytes(self, name, n, mutable=False, fixed=None):
+        """n symbolic bytes; `fixed` = {index: value} pins some of them (an assumption here, constructed directly by the
+        random native harness instead of being hit by chance)."""
         items = []
         for i in range(n):
             b = SInt(z3.Int(sym.fresh_name(f"{name}_{i}")))
             self.path.assume(And(b >= 0, b <= 255))
             items.append(b)
+        for i, v in (fixed or {}).items():
+            self.path.assume(items[i] == v, f"{name}[{i}] == {v}")
         return self._reg(name, BytesVal(items, mutable))
 
-    def abytes(self, name, ln=None, min_len=0, max_len=None):
+    def abytes(self, name, ln=None, min_len=0, max_len=None, native_fix=None):
         arr = z3.Array(sym.fresh_name(name), z3.IntSort(), z3.IntSort())
         if ln is None:
             ln = SInt(z3.Int(sym.fresh_name(name + "_len")))
@@ -450,11 +454,11 @@ class NativeHarness:
     def tenths(self, name, lo_k, hi_k):
         return float(self._in(name))
 
-    def bytes(self, name, n, mutable=False):
+    def bytes(self, name, n, mutable=False, fixed=None):
         v = self._in(name)
         return bytearray(v) if mutable else bytes(v)
 
-    def abytes(self, name, ln=None, min_len=0, max_len=None):
+    def abytes(self, name, ln=None, min_len=0, max_len=None, native_fix=None):
         return bytes(self._in(name))
 
     def enum(self, name, cls, only=None, exclude=()):
@@ -712,11 +716,11 @@ class ConcreteHarness(Harness):
     def tenths(self, name, lo_k, hi_k):
         return float(self._in(name))
 
-    def bytes(self, name, n, mutable=False):
+    def bytes(self, name, n, mutable=False, fixed=None):
         v = self._in(name)
         return BytesVal(list(v["__bytes__"]), mutable)
 
-    def abytes(self, name, ln=None, min_len=0, max_len=None):
+    def abytes(self, name, ln=None, min_len=0, max_len=None, native_fix=None):
         raise SkipConformance("symbolic-length buffers are exercised through loop contracts only")
 
     def enum(self, name, cls, only=None, exclude=()):
